@@ -44,7 +44,7 @@ def plan_st(draw, tier):
         lp = [name, {"alpha": draw(st.sampled_from([0, 1, 0.5, 2.25, 1.0])), "l2_lambda": lam, "scale": scale}]
     else:
         lp = [name, {"alpha": draw(st.sampled_from([1e-9, 1e-7, 0.5, 1])), "l2_lambda": lam, "scale": scale}]
-    kind, arms = draw(gen.arms_st(("int", "str"), 1, 4))
+    kind, arms = draw(gen.arms_st(("int", "str"), 1, 4, many_ok=True))
     cfg = {"arms": arms, "lp": lp, "np": None, "seed": draw(st.integers(0, 2 ** 20)), "n_jobs": 1, "backend": None,
            "arm_kind": kind}
     fam = draw(st.sampled_from(["E", "Eint", "F3"]))
